@@ -10,6 +10,8 @@ def emit(sc):
         lines.append("push %s policy=%s capacity=%d id=%d" % (p["name"], p["policy"], p["capacity"], p["id"]))
     for t in sc.get("timers", []):
         lines.append("timer %d %s" % (t["id"], ";".join("%d:%s" % (k, ",".join(ops)) for k, ops in sorted(t["script"].items()) if ops)))
+    for t in sc.get("watches", []):
+        lines.append("watch %d %s %s" % (t["id"], t["push"], ";".join("%d:%s" % (k, ",".join(ops)) for k, ops in sorted(t["script"].items()) if ops)))
     for i, w in sorted(sc.get("work", {}).items()):
         lines.append("work %d %d" % (int(i), w))
     for th in sc["threads"]:
@@ -96,6 +98,17 @@ def gen_scenario(seed, kind="push"):
             sc["work"][str(1000 + 50 + i * 10)] = rng.choice((5, 200, 5000))      # slow evaluations: the graph lags
     if sc["pushes"] and rng.random() < 0.2:
         sc["work"][str(sc["pushes"][0]["id"])] = rng.choice((5, 100, 2000))
+    plain = [p for p in sc["pushes"] if p["policy"] != "burst"]
+    if kind == "timers" and plain and sc["threads"] and rng.random() < 0.6:
+        # a "watchdog": scheduler-scripted node with a push-fed input. It holds two or three pending (tagged) events; an input tick
+        # evaluates it while none of them is due, and that evaluation may move or cancel the earliest one
+        rr = random.Random(seed ^ 0x3A7C)
+        d = lambda: rr.choice((40, 150, 600, 2500, horizon // 3 + 1, horizon // 2 + 1))
+        script = {0: ["+%d#to" % d(), "+%d#fl" % d()] + (["+%d" % d()] if rr.random() < 0.3 else [])}
+        for k in range(1, rr.randint(2, 6)):
+            r2 = rr.random()
+            script[k] = ["+%d#to" % d()] if r2 < 0.45 else ["u#to"] if r2 < 0.6 else ["+%d#fl" % d()] if r2 < 0.75 else []
+        sc["watches"] = [dict(id=70, push=plain[0]["name"], script=script)]
     # stop: explicit request at a seeded moment, or the end time
     r = rng.random()
     if r < 0.5:
@@ -316,6 +329,30 @@ def check_push(h):
     return None, stats
 
 
+def superseded_requests(h, reqs):
+    """tagged requests: a tag holds one pending time - an accepted later request for the same tag replaces the earlier one, an
+    un_schedule(tag) cancels it. Returns {index in reqs: engine time at which the request stopped being pending}"""
+    gone = {}
+    pending = {}          # (node id, tag) -> index in reqs
+    by_idx = {r["idx"]: i for i, r in enumerate(reqs)}
+    for e in h.treq:
+        tag = e.get("tag") or ""
+        if not tag:
+            continue
+        key = (e["id"], tag)
+        if e["op"] == "u":
+            if key in pending:
+                gone[pending.pop(key)] = e["t"]
+            continue
+        i = by_idx.get(e["idx"])
+        if i is None or reqs[i]["when"] is None:
+            continue          # a rejected request leaves the pending one alone
+        if key in pending:
+            gone[pending[key]] = e["t"]
+        pending[key] = i
+    return gone
+
+
 def timer_requests(h):
     """logical times the documented NodeScheduler rule accepts, per timer request"""
     out = []
@@ -365,6 +402,8 @@ def check_realtime(h):
     #  only evaluations of nodes *scheduled* for a logical time are held to the wall clock)
     tset = set(times)
     for e in h.tev:
+        if e.get("inp") and not e.get("due"):
+            continue          # evaluated by an input tick, not scheduled for this time: push-driven cycles are floored at previous + MIN_TD
         if e["wall"] < e["t"]:
             lead = e["t"] - e["wall"]
             # known finding F4: logical time ran ahead of the wall clock through the MIN_TD floor of push-driven cycles
@@ -385,10 +424,16 @@ def check_realtime(h):
     # instrumented build: scheduler steps (and clock advance) may fall between the node's log line and the engine's own
     # reading of the wall clock, so the logical time of a wall-clock alarm is known only approximately there
     fuzzy = {r["id"] for r in reqs if r["alarm"]} if sc.get("instr") else set()
-    for r in reqs:
+    gone = superseded_requests(h, reqs)
+    stats["probe_tag_replaced_or_cancelled_before_due"] = 0
+    stats["probe_input_driven_evaluation_with_timers_pending"] = sum(1 for e in h.tev if e.get("inp") and not e.get("due"))
+    for ri, r in enumerate(reqs):
         T = r["when"]
         if T is None:
             continue
+        if ri in gone and gone[ri] < T:
+            stats["probe_tag_replaced_or_cancelled_before_due"] += 1
+            continue          # the tag was re-scheduled or cancelled before this time came: no longer pending
         if r["alarm"] and T <= max(r["t"], r["wall"]) + (0 if r["in_start"] else 0):
             stats["probe_alarm_already_due"] += 1
         if r["id"] in fuzzy and r["alarm"]:
@@ -415,7 +460,7 @@ def check_realtime(h):
             continue
         asked = {r["when"] for r in reqs if r["id"] == tid and r["when"] is not None}
         for T in m:
-            if T not in asked:
+            if T not in asked and not m[T].get("inp"):
                 return ("unrequested_evaluation", "timer %d evaluated at %d; requested times were %s" % (tid, T, sorted(asked)[:12])), stats
     # punctuality when nothing makes the graph lag
     # (not in instrumented runs: every extra scheduler step costs simulated wall time, the engine lags by construction)
